@@ -99,6 +99,40 @@ func (c19) Generate(r *engine.Rand, index int, tier string) *engine.Scenario {
 		sc.Cycles = at + uint64(period)*8192*uint64(r.Range(2, 5))
 		return sc
 	}
+	if index%16 == 13 {
+		// directed: the sweep unit works on its own copy of the frequency, taken at the trigger (and at
+		// its own write-backs): the frequency registers rewritten afterwards without a trigger, NR10
+		// rewritten (time 0 to a time, shift changed, same direction), then left alone for many sweep clocks
+		sc.Class = "sweep-shadow"
+		at := uint64(r.Range(10, 3000))
+		add := func(a uint16, v uint8) {
+			sc.Events = append(sc.Events, engine.Event{At: at, K: "bus_w", A: a, V: v})
+			at += uint64(r.Range(1, 3000))
+		}
+		shift := r.Range(1, 7)
+		time0 := 0
+		if r.Bool() {
+			time0 = r.Range(1, 7)
+		}
+		f := r.Range(0x100, 0x7ff)
+		add(0xff12, 0xf0)
+		add(0xff10, uint8(time0<<4|shift))
+		add(0xff13, uint8(f))
+		add(0xff14, 0x80|uint8(f>>8))
+		for i, n := 0, r.Range(1, 4); i < n; i++ {
+			switch r.Intn(3) {
+			case 0:
+				add(0xff13, r.Byte())
+			case 1:
+				add(0xff14, r.Byte()&0x07)
+			default:
+				add(0xff10, uint8(r.Range(0, 7)<<4|r.Range(0, 7)))
+			}
+		}
+		add(0xff10, uint8(r.Range(1, 7)<<4|r.Range(1, 7)))
+		sc.Cycles = at + 8192*uint64(r.Range(9, 40))
+		return sc
+	}
 	long := index%8 == 7
 	sc.Class = "short"
 	span := uint64(r.Range(8000, 70000))
